@@ -166,6 +166,14 @@ impl DiffCheck {
             DiffMode::Optimizer => {
                 f.joins = true;
                 f.and_or = true;
+                // half of the runs lean on what filter pushdown / column
+                // pruning do around aggregates and derived tables
+                if rng.chance(1, 2) {
+                    f.group_by = true;
+                    f.rollup_cube = true;
+                    f.having = true;
+                    f.derived = true;
+                }
             }
             DiffMode::Config | DiffMode::Schedule => {
                 f.joins = true;
